@@ -54,6 +54,7 @@ func checkC02(c *Check) {
 	c02WheelCallback(c)
 	c02CommitNeverFails(c, "R11")
 	c02ReportID(c, "R12")
+	c02StagingTruncated(c, "R13")
 	c02ErrorsNotSwallowed(c)
 	c02CleanupOnlyWhenGone(c)
 }
